@@ -109,7 +109,12 @@ func GenDecoderZoo(r *R, idx int) (*ir.Request, []ZooMsg) {
 	us := &ir.Message{Name: "UnwrapScalarsReq", Fields: []*ir.Field{{Name: "items", Number: 1, Kind: usKind, Card: "repeated", Ann: A(ir.Ann{Unwrap: true})}}}
 	um := &ir.Message{Name: "UnwrapMapReq", Fields: []*ir.Field{{Name: "entries", Number: 1, Kind: "message", TypeName: P + "Leaf", Card: "map", MapKey: "string", Ann: A(ir.Ann{Unwrap: true})}}}
 	bl := &ir.Message{Name: "BarList", Fields: []*ir.Field{{Name: "bars", Number: 1, Kind: "message", TypeName: P + "Leaf", Card: "repeated", Ann: A(ir.Ann{Unwrap: true})}}}
-	mv := &ir.Message{Name: "MapValReq", Fields: []*ir.Field{{Name: "by_symbol", Number: 1, Kind: "message", TypeName: P + "BarList", Card: "map", MapKey: "string"}, note(2)}}
+	// the map-value unwrap container re-decodes its OTHER fields itself: message siblings (singular and
+	// repeated) go through protojson element by element, scalars and ordinary maps through encoding/json
+	mv := &ir.Message{Name: "MapValReq", Fields: []*ir.Field{{Name: "by_symbol", Number: 1, Kind: "message", TypeName: P + "BarList", Card: "map", MapKey: "string"}, note(2),
+		{Name: "places", Number: 3, Kind: "message", TypeName: P + "Leaf", Card: "repeated"},
+		{Name: "home", Number: 4, Kind: "message", TypeName: P + "Leaf"},
+		{Name: "tags", Number: 5, Kind: "string", Card: "repeated"}}}
 	em := &ir.Message{Name: "EnumReq", Fields: []*ir.Field{{Name: "status", Number: 1, Kind: "enum", TypeName: P + "Status", Ann: A(ir.Ann{EnumEnc: "STRING"})},
 		{Name: "history", Number: 2, Kind: "enum", TypeName: P + "Status", Card: "repeated"}}}
 	pl := &ir.Message{Name: "PlainReq", Oneofs: []*ir.Oneof{{Name: "pick"}}, Fields: []*ir.Field{
